@@ -84,13 +84,36 @@ static void rewrite(Src& s, Expr& e, Rewrite& rw, bool shortcut_ctx = false)
         e = const_expr(s, v);
       else
       {
+        // the external holds v, or -v / ~v behind the matching unary operator, or v - k next to `+ k`:
+        // an operator applied to a run-time operand is still a run-time value for every shortcut
+        int form = (int) s.weighted({55, 20, 10, 15});
+        int64_t k = (int64_t) s.range(1, 9);
+        int64_t held = form == 0 ? v : form == 1 ? -v : form == 2 ? ~v : v - k;
         std::string nm = strf("e%zu", rw.exts.size());
-        rw.exts.push_back({nm, v});
+        rw.exts.push_back({nm, held});
         Expr x;
         x.k = Expr::EXT;
         x.ty = TI;
         x.name = nm;
-        e = x;
+        if (form == 0)
+          e = x;
+        else if (form == 1 || form == 2)
+        {
+          Expr u;
+          u.k = form == 1 ? Expr::NEG : Expr::BITNOT;
+          u.ty = TI;
+          u.ch = {x};
+          e = u;
+        }
+        else
+        {
+          Expr b;
+          b.k = Expr::ARITH;
+          b.ty = TI;
+          b.name = "+";
+          b.ch = {x, mk_int(k)};
+          e = b;
+        }
       }
       rw.replaced++;
       if (shortcut_ctx)
@@ -172,6 +195,38 @@ std::string run_case(Src& s, CaseInfo& ci)
   size_t nstr = s.range(1, 3);
   static const char* IDS[] = {"$_s1", "$_t1", "$_s2"};
   for (size_t i = 0; i < nstr; i++) base.strs.push_back(gen_gstr(s, gs, IDS[i]));
+  if (s.coin(30))
+  {
+    // a hex string whose literal runs are separated by single wildcards: every 4-byte window of it is a
+    // candidate atom, most of them with a wildcard inside or at an end - the atom quality table decides
+    // which one is taken, and the match must not depend on it
+    GStr h;
+    h.kind = 1;
+    h.id = base.strs[0].id;
+    Node cat;
+    cat.k = Node::CONCAT;
+    size_t nruns = s.range(2, 4);
+    for (size_t r = 0; r < nruns; r++)
+    {
+      size_t len = s.range(1, 4);
+      for (size_t k = 0; k < len; k++)
+      {
+        Node b;
+        b.k = Node::LIT;
+        b.val = (uint8_t) gs.pool[0][(r + k) % gs.pool[0].size()] + (uint8_t) (r * 16 + k);
+        cat.ch.push_back(b);
+      }
+      if (r + 1 < nruns)
+      {
+        Node any;
+        any.k = Node::ANY;
+        cat.ch.push_back(any);
+      }
+    }
+    number_nodes(cat);
+    h.pat = cat;
+    base.strs[0] = h;
+  }
   GenCtx g;
   for (auto& st : base.strs) g.str_ids.push_back(st.id);
   g.budget = (int) s.range(3, 18);
